@@ -848,14 +848,20 @@ def _embed(outer, inner, use_varargs=True, use_varkwargs=True, depth=1):
     e_kwoargs.update(i_kwoargs)
 
     o_src = dict(o_src)
+    # the inner signature is one step further than whichever callable of the
+    # outer one owns the star parameters it goes through
+    forwarders = []
     if o_varargs and use_varargs:
-        o_src.pop(o_varargs.name, None)
+        forwarders.extend(o_src.pop(o_varargs.name, ()))
     if o_varkwargs and use_varkwargs:
-        o_src.pop(o_varkwargs.name, None)
+        forwarders.extend(o_src.pop(o_varkwargs.name, ()))
+    o_depths = o_src.get('+depths', {})
+    depth = max(
+        [depth] + [o_depths[f] + 1 for f in forwarders if f in o_depths])
     src = dict(i_src, **o_src)
 
     src['+depths'] = merge_depths(
-        o_src.get('+depths', {}),
+        o_depths,
         dict((f, v+depth) for f, v in i_src.get('+depths', {}).items()))
 
     return (
